@@ -17,16 +17,22 @@
 (*                          had when created / returned;                    *)
 (*       OutputIsFunction - the bytes returned by quantize() are a function *)
 (*                          of (model, exported recipe, value of the        *)
-(*                          calibration result) only.                       *)
+(*                          calibration result) only - and of the policy    *)
+(*                          installed process-wide by load_config_policy,   *)
+(*                          which is part of the configuration, not of the  *)
+(*                          history of any one Quantizer.                   *)
 (***************************************************************************)
 EXTENDS Integers, Sequences, FiniteSets, TLC, Json
 
 CONSTANTS
   NQ,           \* number of Quantizer objects (1..2)
   Recipes,      \* recipe ids that can be loaded
-  NeedsCal,     \* [recipe -> BOOLEAN]
-  StatsOf,      \* [recipe -> set of operators whose runtime tensors calibration under this recipe records / quantization needs]
-  WritesStats,  \* [recipe -> BOOLEAN]: quantising under this recipe aliases/overwrites statistics (same-scale / fixed-range ops quantised)
+  Policies,     \* config-check policies that load_config_policy() can install: PROCESS-GLOBAL state shared by all Quantizers
+  LoadOutcome,  \* [<<recipe, policy>> -> <<"ok" | "raise", recipe id the store holds afterwards>>]  (load is not atomic: a rule the
+                \*   policy refuses raises after the rules before it were added)
+  NeedsCal,     \* [recipe id -> BOOLEAN]  (decided from the rule list alone)
+  StatsOf,      \* [<<recipe id, policy>> -> set of operators the recipe selects under the policy in force WHEN IT IS USED]
+  WritesStats,  \* [<<recipe id, policy>> -> BOOLEAN]: quantising aliases/overwrites statistics (same-scale / fixed-range ops selected)
   Datasets,     \* dataset ids
   MaxLen,       \* history length
   MaxCals,      \* bound on calibration results alive
@@ -34,14 +40,15 @@ CONSTANTS
 
 NoRecipe == "none"
 VARIABLES
+  policy,     \* the policy registered for min/max quantisation (global)
   rec,        \* [1..NQ -> recipe id or NoRecipe]
   quantized,  \* [1..NQ -> BOOLEAN]  (a result exists: validate() is possible)
   cals,       \* heap: seq of [val, writes]: val = value term of the result, writes = set of recipes that wrote into it
   snap,       \* ghost: seq of value terms at return time
   outs,       \* ghost: set of <<recipe, value term of the calibration result as SEEN by this call, value at return time>>
   hist, last
-vars == <<rec, quantized, cals, snap, outs, hist, last>>
-View == <<rec, quantized, cals, outs>>
+vars == <<policy, rec, quantized, cals, snap, outs, hist, last>>
+View == <<policy, rec, quantized, cals, outs>>
 
 Qs == 1..NQ
 NoCal == 0
@@ -49,13 +56,20 @@ NoCal == 0
 Seen(k) == IF k = NoCal THEN << <<"nocal">>, {} >> ELSE <<cals[k].val, cals[k].writes>>
 \* operators for which a calibration value term holds statistics (a resumed result keeps those of its base)
 RECURSIVE Covered(_)
-Covered(v) == IF v = <<"nocal">> THEN {} ELSE StatsOf[v[1]] \cup Covered(v[3][1])
+Covered(v) == IF v = <<"nocal">> THEN {} ELSE StatsOf[<<v[1], v[2]>>] \cup Covered(v[4][1])
 Pristine(k) == IF k = NoCal THEN << <<"nocal">>, {} >> ELSE <<snap[k], {}>>
 
 Load(q, r) ==
-  /\ rec' = [rec EXCEPT ![q] = r] /\ last' = "ok"
-  /\ UNCHANGED <<quantized, cals, snap, outs>>
+  /\ rec' = [rec EXCEPT ![q] = LoadOutcome[<<r, policy>>][2]]
+  /\ last' = (IF LoadOutcome[<<r, policy>>][1] = "ok" THEN "ok" ELSE "raise:refused")
+  /\ UNCHANGED <<policy, quantized, cals, snap, outs>>
   /\ hist' = Append(hist, <<"load", q, r>>)
+
+\* Quantizer.load_config_policy: replaces the policy for every Quantizer of the process
+LoadPolicy(q, p) ==
+  /\ policy' = p /\ last' = "ok"
+  /\ UNCHANGED <<rec, quantized, cals, snap, outs>>
+  /\ hist' = Append(hist, <<"policy", q, p>>)
 
 \* calibrate(data d, previous_calibration_result = cals[prev]) on quantizer q
 Calibrate(q, d, prev) ==
@@ -64,36 +78,37 @@ Calibrate(q, d, prev) ==
      THEN /\ last' = "empty"                      \* returns {} without running
           /\ UNCHANGED <<cals, snap>>
      ELSE /\ Len(cals) < MaxCals
-          /\ LET v == <<rec[q], d, Seen(prev)>> IN      \* resumes from the value the previous result has NOW
+          /\ LET v == <<rec[q], policy, d, Seen(prev)>> IN      \* resumes from the value the previous result has NOW
              /\ cals' = Append(cals, [val |-> v, writes |-> {}])
              /\ snap' = Append(snap, v)
           /\ last' = "ok"
-  /\ UNCHANGED <<rec, quantized, outs>>
+  /\ UNCHANGED <<policy, rec, quantized, outs>>
   /\ hist' = Append(hist, <<"calibrate", q, d, prev>>)
 
 Quantize(q, k) ==
   /\ k \in 0..Len(cals)
   /\ IF rec[q] = NoRecipe THEN last' = "raise:norecipe" /\ UNCHANGED <<quantized, cals, outs>>
      ELSE IF NeedsCal[rec[q]] /\ k = NoCal THEN last' = "raise:nocal" /\ UNCHANGED <<quantized, cals, outs>>
-     ELSE IF NeedsCal[rec[q]] /\ ~(StatsOf[rec[q]] \subseteq Covered(cals[k].val))
+     ELSE IF NeedsCal[rec[q]] /\ ~(StatsOf[<<rec[q], policy>>] \subseteq Covered(cals[k].val))
           THEN last' = "raise:missing" /\ UNCHANGED <<quantized, cals, outs>>     \* statistics of another recipe: rejected
-     ELSE /\ outs' = outs \cup {<<rec[q], Seen(k), Pristine(k)>>}
+     ELSE /\ outs' = outs \cup {<<rec[q], policy, Seen(k), Pristine(k)>>}
           /\ quantized' = [quantized EXCEPT ![q] = TRUE]
-          /\ cals' = IF k # NoCal /\ "qsvcopy" \notin Fixes /\ WritesStats[rec[q]]
+          /\ cals' = IF k # NoCal /\ "qsvcopy" \notin Fixes /\ WritesStats[<<rec[q], policy>>]
                      THEN [cals EXCEPT ![k].writes = @ \cup {rec[q]}] ELSE cals
           /\ last' = "ok"
-  /\ UNCHANGED <<rec, snap>>
+  /\ UNCHANGED <<policy, rec, snap>>
   /\ hist' = Append(hist, <<"quantize", q, k>>)
 
 Validate(q) ==
   /\ last' = IF quantized[q] THEN "ok" ELSE "raise:noresult"
-  /\ UNCHANGED <<rec, quantized, cals, snap, outs>>
+  /\ UNCHANGED <<policy, rec, quantized, cals, snap, outs>>
   /\ hist' = Append(hist, <<"validate", q>>)
 
-Init == /\ rec = [q \in Qs |-> NoRecipe] /\ quantized = [q \in Qs |-> FALSE]
+Init == /\ policy = "P0" /\ rec = [q \in Qs |-> NoRecipe] /\ quantized = [q \in Qs |-> FALSE]
         /\ cals = <<>> /\ snap = <<>> /\ outs = {} /\ hist = <<>> /\ last = "init"
 Next == /\ Len(hist) < MaxLen
         /\ \E q \in Qs : \/ \E r \in Recipes : Load(q, r)
+                         \/ \E p \in Policies : (p # policy /\ LoadPolicy(q, p))
                          \/ \E d \in Datasets, prev \in 0..MaxCals : Calibrate(q, d, prev)
                          \/ \E k \in 0..MaxCals : Quantize(q, k)
                          \/ Validate(q)
@@ -104,7 +119,7 @@ Spec == Init /\ [][Next]_vars
 ArgsUntouched == \A k \in 1..Len(cals) : cals[k].val = snap[k] /\ cals[k].writes = {}
 \* every quantize() call saw the pristine value of its calibration result: the output is a function of
 \* (model, recipe, calibration result) and not of the calls made before
-OutputIsFunction == \A o \in outs : o[2] = o[3]
+OutputIsFunction == \A o \in outs : o[3] = o[4]
 
 EmitH == PrintT(<<"HIST", ToJson([hist |-> hist, last |-> last])>>)
 =============================================================================
